@@ -17,6 +17,7 @@ struct GramDef {
   RawGram raw;
   int strict = 0;
   bool use_text = false;   // define through yaep_parse_grammar(text)
+  bool mutated = false;    // the text was mutated: `raw' no longer says what it denotes
   std::string text;
 };
 struct Case {
@@ -29,6 +30,7 @@ struct Case {
   long P(const std::string &k, long d = 0) const { auto f = par.find(k); return f == par.end() ? d : f->second; }
 };
 
+inline std::string oneLineStr(const std::string &s) { std::string o; for (char c : s) o += (c == '\n' || c == '\r' || c == '\t') ? ' ' : c; return o; }
 inline std::string esc(const std::string &s) {
   std::string o;
   char b[8];
@@ -81,7 +83,7 @@ inline std::string caseText(const Case &c) {
   std::ostringstream o;
   o << "prop " << c.prop << "\n";
   for (size_t i = 0; i < c.grams.size(); i++) {
-    o << "gram " << i << " strict=" << c.grams[i].strict << " text=" << (c.grams[i].use_text ? 1 : 0) << "\n";
+    o << "gram " << i << " strict=" << c.grams[i].strict << " text=" << (c.grams[i].use_text ? 1 : 0) << " mut=" << (c.grams[i].mutated ? 1 : 0) << "\n";
     o << rawGramText(c.grams[i]);
   }
   for (size_t i = 0; i < c.inputs.size(); i++) {
@@ -120,6 +122,7 @@ inline bool parseCase(const std::string &txt, Case &c) {
       while (ls >> a) {
         if (a.rfind("strict=", 0) == 0) gd.strict = atoi(a.c_str() + 7);
         if (a.rfind("text=", 0) == 0) gd.use_text = atoi(a.c_str() + 5);
+        if (a.rfind("mut=", 0) == 0) gd.mutated = atoi(a.c_str() + 4);
       }
       c.grams.push_back(gd);
     } else if (w == "term") {
